@@ -57,7 +57,7 @@ pub fn open_header(key: &[u8], src: &mut BytesMut) -> Result<Option<Vec<u8>>> {
         .decrypt(&length_iv.into(), Payload { msg: &length_encrypted, aad: &auth_id })
         .map_err(|e| anyhow!(e))?;
     let length = u16::from_be_bytes(length_bytes.try_into().map_err(|_| anyhow!("parse length bytes failed"))?) as usize;
-    if cursor.remaining() < length {
+    if cursor.remaining() < length + TAG_SIZE {
         return Ok(None);
     }
     let header_key = kdf::kdf16(key, vec![kdf::SALT_PAYLOAD_KEY, &auth_id, &nonce]);
